@@ -93,6 +93,11 @@ func c02Honest(c c02Case, pd c02PD, signer int, aud string, nonce string, layout
 		// a valid presentation need not start at the moment it is presented: 5 s in total, 2 s of them already gone
 		main.Created, main.Expires = -2*time.Second, c02Ptr(3*time.Second)
 	}
+	if pd.lax() && layout == "two_first" {
+		// a definition without lower bounds is already "matched" (by nothing) by the first presentation the node looks
+		// at, so the honest holder puts the presentation that carries the credentials first
+		layout = "two_last"
+	}
 	switch layout {
 	case "extra_cred":
 		main.Creds = append(main.Creds, r.newCred(c, "unrelated", signer))
